@@ -269,8 +269,8 @@ C10_Mem(zz) ==
 \cup { Raw("invalid-scale", u \o <<"[", "rax", "+", sc, "*", "rcx", "]">> \o MemTail(u)) : u \in MemUsers, sc \in BadScales }
 \cup { Raw("invalid-scale", u \o <<"[", sc, "*", "rcx", "]">> \o MemTail(u)) : u \in MemUsers, sc \in BadScales }
 \cup { Raw("invalid-scale", u \o <<"[", sc, "*", "rcx", "+", "0x10", "]">> \o MemTail(u)) : u \in MemUsers, sc \in BadScales }
-\cup { Raw("sp-scaled-index", u \o <<"[", "rax", "+", sp, "*", sc, "]">> \o MemTail(u)) : u \in MemUsers, sp \in {"rsp", "esp"}, sc \in {"1", "2", "4", "8"} }
-\cup { Raw("sp-scaled-index", u \o <<"[", "rax", "+", sc, "*", sp, "]">> \o MemTail(u)) : u \in MemUsers, sp \in {"rsp"}, sc \in {"1", "2", "4", "8"} }
+\cup { Raw("sp-scaled-index", u \o <<"[", "rax", "+", sp, "*", sc, "]">> \o MemTail(u)) : u \in MemUsers, sp \in {"rsp", "esp"}, sc \in {"2", "4", "8"} }
+\cup { Raw("sp-scaled-index", u \o <<"[", "rax", "+", sc, "*", sp, "]">> \o MemTail(u)) : u \in MemUsers, sp \in {"rsp"}, sc \in {"2", "4", "8"} }
 \cup { Raw("sp-scaled-index", u \o <<"[", sc, "*", sp, "]">> \o MemTail(u)) : u \in MemUsers, sp \in {"rsp", "esp"}, sc \in {"2", "4", "8"} }
 \cup { Raw("sp-scaled-index", u \o <<"[", sc, "*", sp, "+", "0x10", "]">> \o MemTail(u)) : u \in MemUsers, sp \in {"rsp"}, sc \in {"2", "4", "8"} }
 \cup { Raw("sp-base-and-index", u \o <<"[", sp, "+", sp, "]">> \o MemTail(u)) : u \in MemUsers, sp \in {"rsp", "esp"} }
@@ -327,7 +327,7 @@ Styles2(zz) == {st \in StyleDims : Cardinality(Changed(st)) <= 2}
 Styles3(zz) == {st \in StyleDims : Cardinality(Changed(st)) = 3}
 \* program decorations: lines that emit nothing
 DecorLines == { <<"">>, <<" ">>, <<"; only a comment">>, <<"label:">>, <<"  loop_1:">>, <<"section .text">>, <<"SECTION .data">>,
-                <<"global main">>, <<"GLOBAL _start">>, <<"% macro-like">>, <<"tab; c">> }
+                <<"global main">>, <<"GLOBAL _start">>, <<"% macro-like">>, <<"<09>", "; c">>, <<"   ", "; indented comment">> }
 
 (* ============================= selection ================================ *)
 Selected == CASE IOEnv.CORPUS = "C01" -> CorpusC01(0)
